@@ -56,8 +56,17 @@ where
     while let Some(prefix) = stack.pop() {
         if stats.executions >= max_exec { stats.capped = true; break; }
         let plen = prefix.len();
-        let mut ch = Chooser::new(prefix);
-        f(&mut ch)?;
+        let mut ch = Chooser::new(prefix.clone());
+        let mut attempt = 0;
+        loop {
+            match f(&mut ch) {
+                Ok(()) if ch.trace.len() < plen && attempt < 8 => { attempt += 1; ch = Chooser::new(prefix.clone()); }
+                Ok(()) => break,
+                // environment noise (a spurious kernel EAGAIN changes the library's syscall sequence): re-run the prefix
+                Err(Mach(m)) if m.starts_with("REPLAY DIVERGENCE") && attempt < 8 => { attempt += 1; ch = Chooser::new(prefix.clone()); }
+                Err(e) => return Err(e),
+            }
+        }
         if ch.trace.len() < plen { return mach("REPLAY DIVERGENCE: execution ended before the forced prefix was consumed"); }
         stats.executions += 1;
         stats.choice_points += ch.trace.len() as u64;
